@@ -121,7 +121,33 @@ class ReferenceArchives:
         return {"name": self.name, "evidence": ev, "violations": viol}
 
 
+class ProgressAccount:
+    """the callback account of an extraction under a controlled clock (bounded/progress.py)"""
+
+    name = "progress-account-controlled-clock"
+    props = ("C18",)
+
+    def run(self, tier, seed):
+        repo = os.environ.get("VERIF_REPO", "/repo")
+        env = dict(os.environ)
+        if os.path.realpath(repo) != "/repo":
+            env["PYTHONPATH"] = repo
+        bound = "16 fixed + %d seeded archives of 1..4 members (sizes 0 .. 3.2 MiB, COPY and LZMA2, one or two folders) extracted to disk with a callback while time.time/monotonic/perf_counter advance by 0 / 0.4 / 0.7 / 1.5 s per call: preparation first, post-processing last, one start and one end per member with its size, updates sum to the bytes decoded" % (12 if tier == "quick" else 200)
+        ev = {"name": self.name, "level": "bounded", "bound": bound}
+        try:
+            p = subprocess.run(["/venv/bin/python", os.path.join(HERE, "bounded", "progress.py"), tier, str(seed)], capture_output=True, text=True, timeout=900 if tier == "quick" else 3600, env=env, cwd=HERE)
+            r = json.loads(p.stdout.strip().split("\n")[-1])
+        except Exception as e:
+            return {"name": self.name, "error": "progress runner failed: %s" % str(e)[:200], "evidence": ev, "violations": []}
+        viol = []
+        for i, f in enumerate(r.get("failures", [])[:3]):
+            viol.append({"name": "bounded/%s/%d" % (self.name, i), "property": "C18", "obligation": "C18/bounded#" + self.name, "status": "confirmed", "concrete_input": f, "real_run": {"interpreter": "/venv/bin/python", "failure": f["failure"]}, "rerun": "/venv/bin/python bounded/progress.py replay <this file>"})
+        ev.update({"runs": r.get("runs"), "seconds": r.get("seconds"), "failures": len(r.get("failures", []))})
+        return {"name": self.name, "evidence": ev, "violations": viol}
+
+
 REGISTRY.scenarios.append(AppendHistories())
+REGISTRY.scenarios.append(ProgressAccount())
 REGISTRY.scenarios.append(ReferenceArchives("C06"))
 REGISTRY.scenarios.append(ReferenceArchives("C10"))
 REGISTRY.scenarios.append(ReferenceArchives("C04"))
